@@ -38,11 +38,28 @@ def Dict.set : Dict → String → Val → Dict
 /-- `dict(d, **r)` -/
 def Dict.merge (d r : Dict) : Dict := r.foldl (fun acc e => Dict.set acc e.1 e.2) d
 
+/-- what a driver body raises: a `SECoPError` (HardwareError, CommunicationFailedError, …) or any other exception
+(`ValueError` from parsing a garbled reply, `KeyError`, `ZeroDivisionError`, …).  The wrappers and `announceUpdate`
+treat the two kinds alike (`except Exception` around a read body, no handler around a write body); the kind is
+carried along so that every theorem quantifies over both and the escaping exception is observed. -/
+inductive ExcKind
+  | secop
+  | value
+  | key
+  | zerodiv
+  deriving Repr, DecidableEq, Inhabited
+
+/-- outcome of a driver read body: a value or an exception -/
+inductive RRes (α : Type)
+  | ok (x : α)
+  | fail (k : ExcKind)
+  deriving Repr, DecidableEq, Inhabited
+
 /-- outcome of a driver write body: a value, `None` (the wrapper takes the requested value), or an exception -/
 inductive WRes (α : Type)
   | ret (x : α)
   | retNone
-  | fail
+  | fail (k : ExcKind)
   deriving Repr, DecidableEq, Inhabited
 
 inductive Ev
@@ -61,6 +78,7 @@ structure St where
   mem : Dict
   evs : List Ev := []
   ok : Bool := true
+  exc : Option ExcKind := none       -- the driver exception that escaped from the operation (`none`: none, or a framework error)
   deriving Repr, DecidableEq, Inhabited
 
 /-- `StructOf.validate` as far as the model needs it: exactly the members, (canonical) order -/
@@ -69,6 +87,8 @@ def wf (cfg : Cfg) (d : Dict) : Bool := d.map Prod.fst == cfg.members
 def emit (s : St) (e : Ev) : St := { s with evs := s.evs ++ [e] }
 def failed (s : St) : St := { s with ok := false }
 def fine (s : St) : St := { s with ok := true }
+/-- the operation ends with the exception `e` of a driver body -/
+def failedExc (e : Option ExcKind) (s : St) : St := { s with ok := false, exc := e }
 
 /-- `announceUpdate(member, x)` while `insideRW > 0` (the member callback does nothing) -/
 def announceMemberIn (m : String) (x : Val) (s : St) : St :=
@@ -97,21 +117,21 @@ def announceMember (cfg : Cfg) (m : String) (x : Val) (s : St) : St :=
 /-! ### combined layout -/
 
 /-- wrapped `read_<struct>` around the programmer's body returning `r` -/
-def readStructA (cfg : Cfg) (r : Option Dict) (s : St) : St :=
+def readStructA (cfg : Cfg) (r : RRes Dict) (s : St) : St :=
   match r with
-  | none => failed s
-  | some d => if wf cfg d then fine (announceStruct cfg d s) else failed s
+  | .fail k => failedExc (some k) s
+  | .ok d => if wf cfg d then fine (announceStruct cfg d s) else failed s
 
 /-- wrapped `write_<struct>(v)` -/
 def writeStructA (cfg : Cfg) (v : Dict) (w : WRes Dict) (s : St) : St :=
   if !wf cfg v then failed s else
   match w with
-  | .fail => failed s
+  | .fail k => failedExc (some k) s
   | .retNone => fine (announceStruct cfg v s)
   | .ret d => if wf cfg d then fine (announceStruct cfg d s) else failed s
 
 /-- wrapped generated `read_<member>` -/
-def readMemberA (cfg : Cfg) (m : String) (r : Option Dict) (s : St) : St :=
+def readMemberA (cfg : Cfg) (m : String) (r : RRes Dict) (s : St) : St :=
   let s1 := readStructA cfg r s
   if !s1.ok then s1 else
   match s1.struct.lookup m with
@@ -119,7 +139,7 @@ def readMemberA (cfg : Cfg) (m : String) (r : Option Dict) (s : St) : St :=
   | some x => fine (announceMember cfg m x s1)
 
 /-- wrapped generated `write_<member>(v)` -/
-def writeMemberA (cfg : Cfg) (m : String) (v : Val) (w : WRes Dict) (r : Option Dict) (s : St) : St :=
+def writeMemberA (cfg : Cfg) (m : String) (v : Val) (w : WRes Dict) (r : RRes Dict) (s : St) : St :=
   let s1 := writeStructA cfg (s.struct.set m v) w s
   if !s1.ok then s1 else
   let s2 := readMemberA cfg m r s1
@@ -130,17 +150,17 @@ def writeMemberA (cfg : Cfg) (m : String) (v : Val) (w : WRes Dict) (r : Option 
 
 /-! ### per-member layout -/
 
-def readMemberB (cfg : Cfg) (m : String) (r : Option Val) (s : St) : St :=
+def readMemberB (cfg : Cfg) (m : String) (r : RRes Val) (s : St) : St :=
   if cfg.hasR m then
     match r with
-    | none => failed s
-    | some x => fine (announceMember cfg m x s)
+    | .fail k => failedExc (some k) s
+    | .ok x => fine (announceMember cfg m x s)
   else fine s
 
 def writeMemberB (cfg : Cfg) (m : String) (v : Val) (w : WRes Val) (s : St) : St :=
   if cfg.hasW m then
     match w with
-    | .fail => failed s
+    | .fail k => failedExc (some k) s
     | .retNone => fine (announceMember cfg m v s)
     | .ret x => fine (announceMember cfg m x s)
   else fine (announceMember cfg m v s)
@@ -150,14 +170,15 @@ structure Loop where
   st : St
   result : Dict := []
   stop : Bool := false
+  exc : Option ExcKind := none       -- the exception that ended the loop
 
 /-- one iteration of `result[m] = read_<m>()` under `insideRW > 0`; `r m` is what the body of `read_<m>` does -/
-def readIter (cfg : Cfg) (r : String → Option Val) (l : Loop) (m : String) : Loop :=
+def readIter (cfg : Cfg) (r : String → RRes Val) (l : Loop) (m : String) : Loop :=
   if l.stop then l else
   if cfg.hasR m then
     match r m with
-    | none => { l with stop := true }
-    | some x => { l with st := announceMemberIn m x l.st, result := l.result ++ [(m, x)] }
+    | .fail k => { l with stop := true, exc := some k }
+    | .ok x => { l with st := announceMemberIn m x l.st, result := l.result ++ [(m, x)] }
   else
     match l.st.mem.lookup m with
     | none => { l with stop := true }
@@ -171,7 +192,7 @@ def writeIter (cfg : Cfg) (v : Dict) (w : String → WRes Val) (l : Loop) (m : S
   | some req =>
     if cfg.hasW m then
       match w m with
-      | .fail => { l with stop := true }
+      | .fail k => { l with stop := true, exc := some k }
       | .retNone => { l with st := announceMemberIn m req l.st, result := l.result ++ [(m, req)] }
       | .ret x => { l with st := announceMemberIn m x l.st, result := l.result ++ [(m, x)] }
     else { l with st := announceMemberIn m req l.st, result := l.result ++ [(m, req)] }
@@ -179,11 +200,11 @@ def writeIter (cfg : Cfg) (v : Dict) (w : String → WRes Val) (l : Loop) (m : S
 /-- what follows the loop: `finally` (re-synchronise after a failure), then the wrapper -/
 def finishLoop (cfg : Cfg) (l : Loop) : St :=
   if l.result.length < cfg.members.length then
-    failed (assignStruct cfg (Dict.merge l.st.struct l.result) l.st)
+    failedExc l.exc (assignStruct cfg (Dict.merge l.st.struct l.result) l.st)
   else if wf cfg l.result then fine (announceStruct cfg l.result l.st)
   else failed l.st
 
-def readStructB (cfg : Cfg) (r : String → Option Val) (s : St) : St :=
+def readStructB (cfg : Cfg) (r : String → RRes Val) (s : St) : St :=
   finishLoop cfg (cfg.members.foldl (readIter cfg r) { st := s })
 
 def writeStructB (cfg : Cfg) (v : Dict) (w : String → WRes Val) (s : St) : St :=
@@ -193,10 +214,10 @@ def writeStructB (cfg : Cfg) (v : Dict) (w : String → WRes Val) (s : St) : St 
 /-! ### operations -/
 
 inductive Op
-  | readStruct (rA : Option Dict) (rB : String → Option Val)           -- oracle of read_<m>, by member
+  | readStruct (rA : RRes Dict) (rB : String → RRes Val)               -- oracle of read_<m>, by member
   | writeStruct (v : Dict) (wA : WRes Dict) (wB : String → WRes Val)   -- oracle of write_<m>, by member
-  | readMember (m : String) (rA : Option Dict) (rB : Option Val)
-  | writeMember (m : String) (v : Val) (wA : WRes Dict) (rA : Option Dict) (wB : WRes Val)
+  | readMember (m : String) (rA : RRes Dict) (rB : RRes Val)
+  | writeMember (m : String) (v : Val) (wA : WRes Dict) (rA : RRes Dict) (wB : WRes Val)
   | driverAssignStruct (v : Dict)
   | driverAssignMember (m : String) (v : Val)
 
@@ -212,7 +233,7 @@ def step (cfg : Cfg) (s : St) : Op → St
   | .driverAssignStruct v => if wf cfg v then fine (assignStruct cfg v s) else failed s   -- not stored: `readerror`
   | .driverAssignMember m v => if !cfg.members.contains m then failed s else fine (announceMember cfg m v s)
 
-def step1 (cfg : Cfg) (s : St) (op : Op) : St := step cfg { s with evs := [] } op
+def step1 (cfg : Cfg) (s : St) (op : Op) : St := step cfg { s with evs := [], exc := none } op
 
 /-- states after each operation (the quiescent points) -/
 def run (cfg : Cfg) (s : St) (ops : List Op) : List St := Frappy.Scan.scan (step1 cfg) s ops
@@ -228,6 +249,7 @@ def init (cfg : Cfg) : St :=
     write_<name>(value):  write_<idx>(min(vdict, key=lambda i: abs(vdict[i] - value))); return getattr(mobj, name)
     __get__:              valuedict[parameters[idx_name].value]
     callback on <idx>:    announceUpdate(name, getattr(modobj, name))
+    callback on <name>:   (repaired code) if value != valuedict[<idx>]: setattr(modobj, <idx>, min(vdict, key=…))
 -/
 
 structure FCfg where
@@ -248,6 +270,7 @@ structure FSt where
   value : Val                    -- the cache entry of the float parameter (what `read` replies)
   evs : List FEv := []
   ok : Bool := true
+  exc : Option ExcKind := none
   deriving Repr, DecidableEq, Inhabited
 
 def dist (a x : Val) : Nat := (a - x).natAbs
@@ -276,7 +299,7 @@ def writeIdx (cfg : FCfg) (i : Int) (w : WRes Int) (s : FSt) : FSt :=
   if !validIdx cfg i then { s with ok := false } else
   if cfg.hasW then
     match w with
-    | .fail => { s with ok := false }
+    | .fail k => { s with ok := false, exc := some k }
     | .retNone => { announceIdx cfg i s with ok := true }
     | .ret j => if validIdx cfg j then { announceIdx cfg j s with ok := true } else { s with ok := false }
   else { announceIdx cfg i s with ok := true }
@@ -293,10 +316,22 @@ def writeFloat (cfg : FCfg) (x : Val) (w : WRes Int) (s : FSt) : FSt :=
     | none => { s1 with ok := false }
     | some v => femit { s1 with value := v } (.value v)
 
+/-- `self.<name> = x` from the driver (`Parameter.__set__` → `announceUpdate`): the cache entry takes any float
+(converted, not range-checked); the callback `trigger_index` compares it with the value of the current index and, when
+it differs, assigns the index of the closest label (whose callback updates the float parameter); the update message of
+the outer `announceUpdate` then carries the value the cache holds at that time -/
+def assignFloat (cfg : FCfg) (x : Val) (s : FSt) : FSt :=
+  let s1 := { s with value := x }
+  let s2 := if cfg.vdict.lookup s1.idx == some x then s1 else
+    match closest cfg.vdict x with
+    | none => s1
+    | some i => announceIdx cfg i s1
+  femit s2 (.value s2.value)
+
 inductive FOp
   | writeFloat (x : Val) (w : WRes Int)
   | writeIdx (i : Int) (w : WRes Int)
-  | readIdx (r : Option Int)
+  | readIdx (r : RRes Int)
   | readFloat
   | driverAssignIdx (j : Int)
   | driverAssignFloat (x : Val)
@@ -308,20 +343,18 @@ def fstep (cfg : FCfg) (s : FSt) : FOp → FSt
   | .readIdx r =>
     if cfg.hasR then
       match r with
-      | none => { s with ok := false }
-      | some j => if validIdx cfg j then { announceIdx cfg j s with ok := true } else { s with ok := false }
+      | .fail k => { s with ok := false, exc := some k }
+      | .ok j => if validIdx cfg j then { announceIdx cfg j s with ok := true } else { s with ok := false }
     else { s with ok := true }
   | .readFloat => { s with ok := true }
   | .driverAssignIdx j => if validIdx cfg j then { announceIdx cfg j s with ok := true } else { s with ok := false }
-  | .driverAssignFloat x =>
-    -- `Parameter.__set__`: the cache entry takes any float (converted, not range-checked); the index is not touched
-    { femit { s with value := x } (.value x) with ok := true }
+  | .driverAssignFloat x => { assignFloat cfg x s with ok := true }
 
 /-- initial state: the index parameter starts with the default of its enum, the float parameter with the
 value of that index (`FloatEnumParam.finish`, repaired code) -/
 def finit (cfg : FCfg) (idx0 : Int) : FSt := { idx := idx0, value := (cfg.vdict.lookup idx0).getD cfg.lo }
 
-def fstep1 (cfg : FCfg) (s : FSt) (op : FOp) : FSt := fstep cfg { s with evs := [] } op
+def fstep1 (cfg : FCfg) (s : FSt) (op : FOp) : FSt := fstep cfg { s with evs := [], exc := none } op
 def frun (cfg : FCfg) (s : FSt) (ops : List FOp) : List FSt := Frappy.Scan.scan (fstep1 cfg) s ops
 def fexec (cfg : FCfg) (s : FSt) (ops : List FOp) : FSt := ops.foldl (fstep1 cfg) s
 
@@ -357,6 +390,7 @@ structure LSt where
   limits : Val × Val
   evs : List LEv := []
   ok : Bool := true
+  exc : Option ExcKind := none
   deriving Repr, DecidableEq, Inhabited
 
 def inRange (cfg : LCfg) (x : Val) : Bool := decide (cfg.lo ≤ x) && decide (x ≤ cfg.hi)
@@ -391,7 +425,7 @@ def lstep (cfg : LCfg) (s : LSt) : LOp → LSt
     else if !checkLimits cfg s x then lfail s
     else if cfg.hasW then
       match w with
-      | .fail => lfail s
+      | .fail k => { s with ok := false, exc := some k }
       | .retNone => lemit { s with value := x } (.value x)
       | .ret y => if inRange cfg y then lemit { s with value := y } (.value y) else lfail s
     else lemit { s with value := x } (.value x)
@@ -408,7 +442,7 @@ def lstep (cfg : LCfg) (s : LSt) : LOp → LSt
   | .driverAssignLimits a b =>
     if cfg.hasLimits then lemit { s with limits := (a, b) } (.limits a b) else lfail s
 
-def lstep1 (cfg : LCfg) (s : LSt) (op : LOp) : LSt := lstep cfg { s with evs := [] } op
+def lstep1 (cfg : LCfg) (s : LSt) (op : LOp) : LSt := lstep cfg { s with evs := [], exc := none } op
 def lrun (cfg : LCfg) (s : LSt) (ops : List LOp) : List LSt := Frappy.Scan.scan (lstep1 cfg) s ops
 def lexec (cfg : LCfg) (s : LSt) (ops : List LOp) : LSt := ops.foldl (lstep1 cfg) s
 
